@@ -21,13 +21,14 @@ type Case struct {
 
 // Runner executes cases packed into shared projects and/or alone.
 type Runner struct {
-	Scratch  string
-	BaseCfg  func() map[string]any
-	Specs    []string
-	Routes   []RoutesJob
-	Runs     int
-	PackSize int
-	seq      atomic.Int64
+	Scratch      string
+	BaseCfg      func() map[string]any
+	Specs        []string
+	Routes       []RoutesJob
+	Runs         int
+	PackSize     int
+	ValidateOnly bool
+	seq          atomic.Int64
 	// Stats
 	Projects  atomic.Int64
 	Bisects   atomic.Int64
@@ -92,7 +93,7 @@ func (rn *Runner) RunProject(p *Project, keepGoing bool) (*Result, string) {
 		r.Out = "./dist/" + r.Key + "/gleece.routes.go"
 		rjs = append(rjs, r)
 	}
-	res := RunJob(Job{Dir: dir, Config: "./gleece.config.json", Specs: rn.Specs, Routes: rjs, Runs: rn.Runs, KeepGoin: keepGoing})
+	res := RunJob(Job{Dir: dir, Config: "./gleece.config.json", Specs: rn.Specs, Routes: rjs, Runs: rn.Runs, KeepGoin: keepGoing, ValidateOnly: rn.ValidateOnly})
 	rn.Projects.Add(1)
 	rn.WorkerMs.Add(res.WallMs)
 	return res, dir
